@@ -33,6 +33,8 @@ RULE = (
     "exceptions, six run their first failing exchange, GIL yielded at a third of the library'"
     "s statements)."
     " One client receives 450 error responses in a row."
+    ' The same error answered three times raises three distinct objects; copy / deepcopy / pi'
+    'ckle of a raised error - where it succeeds - keeps class, raw status and offending OID.'
 )
 ASSUMPTIONS = [
     "an error response echoes the request's bindings (RFC 3416 4.2.x), tooBig may carry an empty list",
